@@ -52,6 +52,11 @@ var c17KeyPool = []string{
 	"a", "b", "\x00", "a\x00b", "/", "//", "a/b", "..", "../../x", "../../../../../../tmp/verif-escape", "/etc/passwd", "/tmp/verif-abs",
 	".temp", ".temp/x", ".temp/0000000000000000", "00", "000", "AA", "abc", "xbc", "yybc", "zzzbc", ".", "./x", "x/../y", "~", "-", "con", "nul",
 	"k\n", "k\r\n", " ", "é", "日本語", "\xff\xfe", strings.Repeat("L", 255), strings.Repeat("M", 256), strings.Repeat("N", 4096), "",
+	// long keys that differ only in their tail: whatever a store does about file-name limits (NAME_MAX is 255
+	// after escaping: 127 raw bytes in hex, 159 in base32) must not make two keys one
+	strings.Repeat("P", 120) + "a", strings.Repeat("P", 120) + "b", strings.Repeat("P", 127) + "a", strings.Repeat("P", 127) + "b",
+	strings.Repeat("P", 128) + "a", strings.Repeat("P", 128) + "b", strings.Repeat("P", 159) + "a", strings.Repeat("P", 159) + "b",
+	strings.Repeat("P", 160) + "a", strings.Repeat("P", 160) + "b", strings.Repeat("P", 200) + "a", strings.Repeat("P", 200) + "b", strings.Repeat("P", 200),
 }
 
 func c17Content(key string, rng *fw.RNG) []byte {
